@@ -1,6 +1,8 @@
 package main
 
 import (
+	"runtime"
+	"strconv"
 	"bytes"
 	"context"
 	"crypto/sha256"
@@ -392,4 +394,14 @@ func DischargeAll(obs []*Obligation, st *Symtab, cfg *SolverCfg, workers int) {
 	}
 	close(ch2)
 	wg2.Wait()
+}
+
+// workers: size of the solver pool (GOVC_WORKERS overrides the number of CPUs).
+func workers() int {
+	if v := os.Getenv("GOVC_WORKERS"); v != "" {
+		if n, err := strconv.Atoi(v); err == nil && n > 0 {
+			return n
+		}
+	}
+	return runtime.NumCPU()
 }
